@@ -16,7 +16,7 @@ static int peek_bits(BitStreamReader *reader, unsigned int n)
 {
 	u32 v;
 	(void) reader;
-	CHECK(n <= 32, "bit reader precondition: at most 32 bits per request");
+	CHECK(n <= 31, "bit reader precondition: at most 31 bits per request (a 32-bit request would shift the 32-bit buffer by its full width)");
 	++bits_calls;
 	if (n == 0) return 0;
 	if (SEQ_NEXT(u8, bitfail) & 1) return -1;
